@@ -97,13 +97,14 @@ type ContractSet struct {
 	Consts   map[string]ast.Expr
 	Defines  map[string]*Define // key: type + "." + name
 	Strings  []string           // string literals occurring in contract expressions
+	Assumes  []*Clause          // global assumptions (about package-level variables)
 }
 
 func newContractSet() *ContractSet {
 	return &ContractSet{Aliases: map[string]string{}, Funcs: map[string]*Contract{}, Ghosts: map[string]*GhostField{}, TypeInvs: map[string][]*TypeInv{}, Consts: map[string]ast.Expr{}, Defines: map[string]*Define{}}
 }
 
-var keywordRe = regexp.MustCompile(`^(alias|func|extern|interface|ghost|smt|typeinv|const|define|requires|ensures|loop|assigns|panics|pure|trusted|at|inline)\b`)
+var keywordRe = regexp.MustCompile(`^(alias|assume|func|extern|interface|ghost|smt|typeinv|const|define|requires|ensures|loop|assigns|panics|pure|trusted|at|inline)\b`)
 
 type rawLine struct {
 	indent int
@@ -185,6 +186,12 @@ func (cs *ContractSet) loadFile(file string, pkgPrefix string) error {
 				return fail("alias <name> <pkgpath>")
 			}
 			cs.Aliases[f[0]] = f[1]
+		case "assume":
+			cl, err := cs.parseClause("assume", rest, l)
+			if err != nil {
+				return err
+			}
+			cs.Assumes = append(cs.Assumes, cl)
 		case "func", "extern", "interface":
 			c := &Contract{Kind: kw, File: l.file, Line: l.line}
 			key := rest
